@@ -131,6 +131,8 @@ static void a_one(int sv, int ver, int alg, const char *key, size_t keylen, int 
 	if (g_hdrcb && KSI_CTX_setRequestHeaderCallback(ctx, a_hdr_cb) != KSI_OK) vf_harness_error("header callback refused");
 	KSI_CTX_setOption(ctx, is_aggr ? KSI_OPT_AGGR_PDU_VER : KSI_OPT_EXT_PDU_VER, (void *)(size_t)ver);
 	if (is_aggr) KSI_CTX_setAggregatorHmacAlgorithm(ctx, (size_t)alg); else KSI_CTX_setExtenderHmacAlgorithm(ctx, (size_t)alg);
+	/* the other service is pinned to another algorithm: whichever is looked at must be this service's own */
+	if (is_aggr) KSI_CTX_setExtenderHmacAlgorithm(ctx, (size_t)(alg == RH_SHA384 ? RH_SHA512 : RH_SHA384)); else KSI_CTX_setAggregatorHmacAlgorithm(ctx, (size_t)(alg == RH_SHA384 ? RH_SHA512 : RH_SHA384));
 	if (sv == SV_AGGR) { hl = ref_fake_imprint(DOCALGS[content / 3], 11u + (unsigned)content, h); level = LEVELS[content % 3]; }
 	if (sv == SV_EXT) with_pub = content;
 
@@ -656,6 +658,8 @@ static int b_call(int kind, int version, int client, int alg, const char *const 
 	vb_init(&sb);
 	KSI_CTX_setOption(ctx, is_aggr ? KSI_OPT_AGGR_PDU_VER : KSI_OPT_EXT_PDU_VER, (void *)(size_t)version);
 	if (is_aggr) KSI_CTX_setAggregatorHmacAlgorithm(ctx, (size_t)alg); else KSI_CTX_setExtenderHmacAlgorithm(ctx, (size_t)alg);
+	/* the other service is pinned to another algorithm: whichever is looked at must be this service's own */
+	if (is_aggr) KSI_CTX_setExtenderHmacAlgorithm(ctx, (size_t)(alg == RH_SHA384 ? RH_SHA512 : RH_SHA384)); else KSI_CTX_setAggregatorHmacAlgorithm(ctx, (size_t)(alg == RH_SHA384 ? RH_SHA512 : RH_SHA384));
 	if (kind == K_AGGR) {
 		B.doc_len = ref_fake_imprint(RH_SHA256, 42, B.doc);
 		KSI_DataHash_fromImprint(ctx, B.doc, B.doc_len, &hsh);
